@@ -83,3 +83,18 @@ pub fn loop_without_progress(s: &str) -> usize {
     }
     n
 }
+
+pub fn guarded_idioms_good(v: &Vec<u8>, s: &str) -> usize {
+    let mut n = 0;
+    if !v.is_empty() {
+        n += v[v.len() - 1] as usize;
+        n += *v.first().unwrap() as usize;
+    }
+    if !s.is_empty() {
+        n += s.chars().next().unwrap() as usize;
+    }
+    for i in 0..v.len() {
+        n += v[i] as usize;
+    }
+    n
+}
